@@ -90,6 +90,21 @@ chk("C04",
     "TLA+ spec + TLC model checking of a GC machine; spec->impl replay of every generated signature through the real analysis",
     "DESIGN.md §5 C04")
 
+chk("C15",
+    "spec/pipeline/Pipeline.tla models a tool run as Start -> Lower -> Generate -> {files | errors}; it has no transition from a "
+    "lowered run to a crash (negative model with such a transition is refuted by NoCrashAfterLowering). Runs of the real binary "
+    "are recorded as Lower/Generate events and validated by Trace_Pipeline.tla. Programs: every shape the Gate spec accepts for "
+    "each backend's probed profile (TLC-enumerated, depth 1 quick / depth 2 thorough), hand-listed combination families "
+    "(optional/borrowed inputs x borrowing returns, write + result, unit and ZST arms, 'static, slices of strings, owned slices) "
+    "x 7 backends x config variants (js.abi legacy/spec, kotlin finalizers, lib_name). Lowering success is established "
+    "in-process with the probed profile; a panic of the binary afterwards is bisected to single shapes and reported by panic "
+    "site, message and shape.",
+    "Required config is always supplied; 128-bit integers are excluded as documented. Ten classes of genuine crashes found on "
+    "the unchanged tree are recorded in known_findings.json keyed by backend, panic site, message and a shape pattern; any other "
+    "site, message, backend or shape is a VIOLATION.",
+    "TLA+ pipeline spec + TLC; impl->spec trace validation of recorded tool runs; spec-generated programs (Gate) as inputs",
+    "DESIGN.md §5 C15")
+
 NOT_YET = {}
 
 
